@@ -16,7 +16,7 @@ and an order key so that, inside one call, reads are seen before the kill.
 from ir import walk, unwrap, show, children
 from effects import PRIMS, PRIM_READS, prim_name, classify_coef, locate, TRANSPARENT_METHODS, NEUTRAL_METHODS, ALIAS_FUNCS
 
-ELEM_CLASSES = ('multi_array', 'circular_buffer')
+ELEM_CLASSES = ('multi_array', 'circular_buffer', 'static_matrix', 'Eigen::')
 
 # hand summaries for callees outside /repo:  name -> {arg index: effect}
 EXTERNAL = {
